@@ -416,7 +416,9 @@ def r7_pins(unit):
                 out.append((h['file'], h.get('degrade_fn', h['fn']), 'the lifted snippet %s is no longer the text its assumed contract was written for: now `%s`'
                             % (h['helper'], re.sub(r'\s+', ' ', c['snippet'])[:200])))
         except mod.Lost as e:
-            if h.get('alternative'):
+            # the snippet is GONE (anchor not found): the lifted helper is then not called at all, no assumed contract is in
+            # play, and the unit's own clauses judge the new text -- except for pin-only entries (an unextracted function)
+            if h.get('alternative') or not h.get('pin_only'):
                 continue
             out.append((h['file'], h.get('degrade_fn', h['fn']), 'the lifted snippet %s was not found: %s' % (h['helper'], e)))
     return out
@@ -475,7 +477,13 @@ def _verify_unit_once(unit, vacuity, extra, tag, degrade):
         r.smt_ms = oj['times-ms']['smt']['total']
     except (KeyError, TypeError):
         pass
-    obl = count_obligations(os.path.join(logdir, 'root.air'))
+    # one AIR log per module (units with child modules: bandinfo, readhunk, localread, blockopen): count them all
+    obl = {}
+    for ap in sorted(glob.glob(os.path.join(logdir, '*.air'))):
+        if ap.endswith('-final.air') or '.smt' in os.path.basename(ap):
+            continue
+        for k, v in count_obligations(ap).items():
+            obl[k] = obl.get(k, 0) + v
     r.obligations = {k.split('::', 1)[-1]: v for k, v in obl.items()}
     diags, raw = parse_diags(err)
     errors = [d for d in diags if d.get('level') == 'error' and not d.get('message', '').startswith('aborting due to')]
